@@ -281,6 +281,8 @@ class GatedObserver:
 
     def _read_records(self, k):
         out = []
+        last = None            # the previous record of this read, and whether only noise came after it
+        noise_since = False
         while len(out) < k:
             r = self._read_one()
             if r is None:
@@ -290,8 +292,17 @@ class GatedObserver:
             if self.drop_noise and (mask & IN["ISDIR"]) and (mask & (IN["OPEN"] | IN["CLOSE_NOWRITE"] | IN["ACCESS"])) \
                     and not (mask & ~(IN["ISDIR"] | IN["OPEN"] | IN["CLOSE_NOWRITE"] | IN["ACCESS"])):
                 self.noise += 1
+                noise_since = True
                 continue
-            self.raw_log.append((wd, mask, cookie, name))
+            rec = (wd, mask, cookie, name)
+            if self.drop_noise and noise_since and rec == last:
+                # the kernel would have coalesced this record with its identical predecessor had the dropped
+                # directory-scan noise not been queued in between: drop it as part of the noise
+                self.noise += 1
+                noise_since = False
+                continue
+            last, noise_since = rec, False
+            self.raw_log.append(rec)
             out.append(r)
         return out
 
